@@ -1,7 +1,8 @@
 import Lean.Data.Json
 import PynguinModel.Model.SetCover
+import PynguinModel.Model.AssertFilter
 /-! Line-protocol driver for C21: one JSON case per line in, one JSON result per line out. -/
-open Lean PynguinModel.SetCover
+open Lean PynguinModel.SetCover PynguinModel.AssertFilter
 
 deriving instance FromJson for Obs
 deriving instance FromJson for VTrace
@@ -14,6 +15,7 @@ inductive Case where
   | summary (n : Nat) (rows : List (List (Option Obs)))
   | pipeline (lazy : Bool) (minimize : Bool) (tests : List (List (List Assertion)))
       (stream : List (Option (List (Option Res))))
+  | filter (test : List (List Nat)) (rounds : List VTrace)
   deriving FromJson
 
 def err (s : String) : Json := Json.mkObj [("err", s)]
@@ -53,6 +55,10 @@ def runCase : Case → Json
       Json.mkObj (summaryFields o.infos ++
         [("tests", toJson (o.tests.map (fun t => t.map (fun st => st.map (·.id)))))])
     | none => err "shape"
+  | .filter test rounds =>
+    match filterRounds test rounds with
+    | some r => Json.mkObj [("rounds", toJson r)]
+    | none => err "remove"
 
 partial def loop (h : IO.FS.Stream) : IO Unit := do
   let line ← h.getLine
